@@ -3,7 +3,8 @@
 cd /verif
 for d in seeded/*/; do
   id=$(basename $d)
-  checks=$(python3 -c "import json;m=json.load(open('$d/meta.json'));print(' '.join(sorted({c.split()[0] for c in m['caught_by']})))")
+  checks=$(python3 -c "import json;m=json.load(open('$d/meta.json'));print(m['breaks_property']+' (recorded-as-not-caught)' if m.get('not_caught') else ' '.join(sorted({c.split()[0] for c in m['caught_by']})))")
+  if [[ "$checks" == *recorded-as-not-caught* ]]; then echo "$id: recorded as NOT caught (see meta.json / DESIGN.md limits)"; continue; fi
   if [ -n "$(git -C /repo status --porcelain)" ]; then echo "/repo not clean"; exit 2; fi
   if ! git -C /repo apply /verif/$d/patch.diff 2>/dev/null; then echo "$id: PATCH DOES NOT APPLY"; continue; fi
   res=""
